@@ -405,6 +405,30 @@ func sinkResult() depSink {
 	}}
 }
 
+// sinkVerdict: what a small predicate's answer depends on: the returned values and every branch
+// condition of the function (the engine tracks data dependence only; in a predicate each branch decides
+// which return is taken).
+func sinkVerdict() depSink {
+	return depSink{desc: "returned values and branch conditions", get: func(p *Program, d *depFn) (bits, int) {
+		var out bits
+		n := 0
+		for _, b := range d.f.Blocks {
+			for _, in := range b.Instrs {
+				switch x := in.(type) {
+				case *ssa.Return:
+					for _, v := range x.Results {
+						out.union(d.fullDep(v))
+					}
+					n++
+				case *ssa.If:
+					out.union(d.fullDep(x.Cond))
+				}
+			}
+		}
+		return out, n
+	}}
+}
+
 // sinkParamPointee: the memory reachable from a (pointer/slice) parameter after the call.
 func sinkParamPointee(name string) depSink {
 	return depSink{desc: "memory written through parameter " + name, get: func(p *Program, d *depFn) (bits, int) {
@@ -832,4 +856,47 @@ func (c *Ctx) reachRule(p *Program, rule, what string, f *ssa.Function, args map
 	default:
 		c.ok(rule, construct, fmt.Sprintf("%d executable call(s) to %s", len(hits), callee), p.fnPos(f))
 	}
+}
+
+// reachCountUnder: under the abstract arguments and value assumptions, exactly want call sites of
+// callee inside f are executable.
+func (c *Ctx) reachCountUnder(p *Program, rule, what string, f *ssa.Function, args map[string]lat, vas []ValAssume, callee string, want int) {
+	if f == nil {
+		c.undecided(rule, what, "anchor function does not resolve", "")
+		return
+	}
+	construct := fname(f) + ": " + what
+	q := &GuardQuery{P: p, Root: f, ValAssumes: vas, MaxDepth: 1}
+	if len(args) > 0 {
+		q.Args = make([]lat, len(f.Params))
+		for i := range q.Args {
+			q.Args[i] = latTop
+		}
+		for n, v := range args {
+			i := paramIdx(f, n)
+			if i < 0 {
+				c.undecided(rule, construct, "parameter "+n+" does not exist", p.fnPos(f))
+				return
+			}
+			q.Args[i] = v
+		}
+	}
+	hits := map[string]bool{}
+	q.Observe = func(in *ssa.Function, site ssa.CallInstruction, name string, _ func(ssa.Value) lat) {
+		if in == f && normName(name) == normName(callee) {
+			hits[p.pos(site.Pos())] = true
+		}
+	}
+	r := runGuard(q)
+	for _, va := range vas {
+		if len(r.Sites[va.Name]) == 0 {
+			c.undecided(rule, construct, "value "+va.Name+" not found in the function", p.fnPos(f))
+			return
+		}
+	}
+	if len(hits) != want {
+		c.bad(rule, construct, fmt.Sprintf("%d executable call site(s) of %s under the assumptions, specification has %d", len(hits), callee, want), p.fnPos(f))
+		return
+	}
+	c.ok(rule, construct, fmt.Sprintf("%d executable call site(s) of %s", len(hits), callee), p.fnPos(f))
 }
